@@ -827,6 +827,16 @@ impl Backend for SimBackend {
     }
 }
 
+/// Run `f` with panic messages suppressed (used when probing which generated corpus types can be
+/// rendered at all).
+pub fn quietly<R>(f: impl FnOnce() -> R) -> R {
+    init_process();
+    let old = TID.with(|t| t.replace(0));
+    let r = f();
+    TID.with(|t| t.set(old));
+    r
+}
+
 static INIT: Once = Once::new();
 
 /// Install the backend and a quiet panic hook; once per process.
